@@ -250,6 +250,7 @@ func runC04(c *kit.Ctx) {
 
 	// ---- R3 ---------------------------------------------------------------
 	c.StartRule("R3", "every received result error reaches handleResultError with the call's region and connection", 3)
+	handbackErrorUnchanged(c)
 	hreName := kit.M("", "*client", "handleResultError")
 	checkHandled := func(fn *ssa.Function, rpcV, rcV ssa.Value, pos token.Pos, what string) {
 		good := false
@@ -339,15 +340,7 @@ func runC04(c *kit.Ctx) {
 		c.Check(okS, hre, "servererror-takes-connection-down", hre.Pos(), "ServerError calls clientDown(rc, reg)", "ServerError no longer takes the connection (and all its regions) down")
 	}
 
-	// clientDown always deals with the region the error was seen on, whatever the cache says
-	if cd := c.Anchor("", "client", "clientDown"); cd != nil {
-		regP := paramOfType(cd, "/hrpc.RegionInfo", 0)
-		e := kit.PathFromEntry(cd, kit.PathQuery{Stop: func(x ssa.Instruction) bool {
-			call, ok := x.(*ssa.Call)
-			return ok && kit.CalleeName(call) == hrpcRI+"MarkUnavailable" && call.Call.Value == ssa.Value(regP)
-		}})
-		c.Check(e == nil && regP != nil, cd, "failed-region-always-marked", cd.Pos(), "every path through clientDown marks the region the error was seen on (even if the connection is no longer in the cache)", "clientDown can return without marking the region whose request failed: if the connection was already purged by another request, that region keeps a dead connection forever")
-	}
+	failedRegionAlwaysMarked(c)
 	// a failed establishment attempt re-resolves the location before the next one
 	{
 		var addrAlloc *ssa.Alloc
@@ -373,6 +366,9 @@ func runC04(c *kit.Ctx) {
 			c.Check(e == nil, est, "failed-attempt-relooks-up", dials[0].Pos(), "every failed attempt clears the address so that the next one looks the region up again", "an establishment attempt can fail and be retried against the same address without consulting hbase:meta again: a region that moved is never found: "+c.BlockPath(e))
 		}
 	}
+
+	// a region replacing a moved/split/merged one becomes visible only once it is marked unavailable
+	markBeforePublish(c)
 
 	// ---- R5 ---------------------------------------------------------------
 	c.StartRule("R5", "TableNotFound is not retried", 2)
@@ -433,4 +429,17 @@ func structFieldStore(v ssa.Value) ssa.Value {
 		}
 	})
 	return out
+}
+
+// failedRegionAlwaysMarked: shared by C04.R4 and C09.R3.
+func failedRegionAlwaysMarked(c *kit.Ctx) {
+	// clientDown always deals with the region the error was seen on, whatever the cache says
+	if cd := c.Anchor("", "client", "clientDown"); cd != nil {
+		regP := paramOfType(cd, "/hrpc.RegionInfo", 0)
+		e := kit.PathFromEntry(cd, kit.PathQuery{Stop: func(x ssa.Instruction) bool {
+			call, ok := x.(*ssa.Call)
+			return ok && kit.CalleeName(call) == hrpcRI+"MarkUnavailable" && call.Call.Value == ssa.Value(regP)
+		}})
+		c.Check(e == nil && regP != nil, cd, "failed-region-always-marked", cd.Pos(), "every path through clientDown marks the region the error was seen on (even if the connection is no longer in the cache)", "clientDown can return without marking the region whose request failed: if the connection was already purged by another request, that region keeps a dead connection forever")
+	}
 }
